@@ -13,6 +13,7 @@ from vlib import boot  # noqa: F401
 from vlib import hier as H
 from vlib import model as M
 from vlib import runner as R
+from vlib import spec as S
 from vlib.prog import Program
 
 NCLS = 4
@@ -24,7 +25,28 @@ def case_strategy():
     from hypothesis import strategies as st
 
     @st.composite
+    def _littable_case(draw):
+        """4-5 methods on pairwise different Literal values of one position (the dispatcher looks the value up in a
+        table) with keyword-only parameters: results and raised exceptions pass through, each body runs once"""
+        nm = draw(st.integers(4, 5))
+        methods = []
+        for i in range(nm):
+            kw = [{"name": k, "ann": None, "opt": draw(st.booleans())} for k in ["k0", "k1"] if draw(st.integers(0, 2)) == 0]
+            methods.append({"id": i, "pos": [{"name": "a0", "ann": ["lit", [i] if draw(st.booleans()) else [i, i + 10]],
+                                              "opt": False}], "kw": kw, "prio": 0})
+        calls = []
+        for _ in range(draw(st.integers(2, 8))):
+            t = draw(st.sampled_from(methods))
+            calls.append({"target": t["id"], "n": 1, "bykw": 0, "skip_first": False, "raise": draw(st.booleans()),
+                          "kws": sorted(p["name"] for p in t["kw"] if not p.get("opt") or draw(st.booleans())),
+                          "via": draw(st.sampled_from(["dispatch", "dispatch", "ovld"]))})
+        return {"methods": methods, "calls": calls, "host": draw(st.sampled_from(["func", "func", "attr", "mc"])),
+                "uniform": True, "router": False, "littable": True}
+
+    @st.composite
     def _case(draw):
+        if draw(st.integers(0, 11)) == 0:
+            return draw(_littable_case())
         nm = draw(st.integers(1, 4))
         uniform = draw(st.booleans())
         ustart = draw(st.sampled_from([9, 9, 1, 2]))  # positions >= ustart are named uniformly even if not `uniform`
@@ -187,7 +209,9 @@ def run_case(spec):
             n = c["n"]
             args = []
             for j in range(n):
-                if j == 0:
+                if j == 0 and t["pos"] and t["pos"][0].get("ann") and t["pos"][0]["ann"][0] == "lit":
+                    args.append(S.lit_value(t["pos"][0]["ann"][1][-1]))
+                elif j == 0:
                     args.append(env[f"K{t['id']}"]())
                 else:
                     args.append(Arg(f"p{j}"))
